@@ -42,6 +42,7 @@ def call_bin(series, n_bins, method, container="polars"):
 
 class C13(Prop):
     id = "C13"
+    float_rank_divergent = 0
     unique_answer = True
     rule = (
         "feature columns: floats with None / NaN / +-inf, Int64 with nulls, constant, all-null, few distinct values; strings, "
@@ -137,6 +138,11 @@ class C13(Prop):
     def compare(self, case, io, mo):
         if "err" in io:
             return f"documented feature type rejected: {io['err']}: {io.get('msg')}"
+        if case["stream"] == "numeric" and case["method"] == "quantile" and tc.quantile_rank_divergent(case["feature"], case["n_bins"]):
+            # np.nanquantile evaluates the rank n * (k / m) in floating point and picks a neighbouring order statistic where the
+            # exact product is an integer: outside the exact model (the oracle on the implementation still applies)
+            self.float_rank_divergent += 1
+            return None
         if io["n_bins"] != mo["n_bins"]:
             return f"returned n_bins {io['n_bins']} vs model {mo['n_bins']}"
         if case["stream"] == "string":
@@ -247,7 +253,7 @@ class C13(Prop):
                 yield {**case, "feature": case["feature"][:i] + case["feature"][i + 1:]}
 
     def extra_coverage(self):
-        return {"edge_ties_skipped": self.edge_ties_skipped}
+        return {"edge_ties_skipped": self.edge_ties_skipped, "float_rank_divergent": self.float_rank_divergent}
 
 
 PROP = C13
